@@ -121,6 +121,51 @@ theorem map_eq_value (conv : Word → Word) (d : GDesc) (op : Op) (b : Buf) (t :
   have := load_write b t.off vals (by omega)
   rwa [hlen] at this
 
+
+/-- the value-level op returns exactly `t.len` coefficients (for a literal assignment: when the
+    literal has the size of the target, which the C++ type system enforces) -/
+theorem opValue_length (conv : Word → Word) (d : GDesc) (op : Op) (b : Buf) (t : Target)
+    (ht : op.target d = some t)
+    (hlit : ∀ l p ws, op = .setCoeffs l p ws → ws.length = t.len) :
+    (opValue (α := α) conv (GDesc.model t.desc) op (load b t.off t.len)
+        (match op.src with | some s => load b s.off (repSize d) | none => [])).length = t.len := by
+  -- the target's length is the RepSize of its descriptor
+  have hres : ∃ o, resolvePath d op.dst.2 = some (o, t.len, t.desc) := by
+    unfold Op.target resolve at ht
+    cases hr : resolvePath d op.dst.2 with
+    | none => simp [hr] at ht
+    | some r =>
+      obtain ⟨o, l, sd⟩ := r
+      simp only [hr] at ht
+      split at ht
+      · simp only [Option.some.injEq] at ht; subst ht; exact ⟨o, rfl⟩
+      · cases ht
+  obtain ⟨o, hr⟩ := hres
+  have hlen : t.len = repSize t.desc := resolvePath_len _ _ _ _ _ hr
+  have hrep : (GDesc.model (α := α) t.desc).rep = t.len := by rw [model_rep, hlen]
+  cases op with
+  | setIdentity l p => simp only [opValue]; rw [valIdentity_length, hrep]
+  | setCoeffs l p ws => simp only [opValue]; exact hlit l p ws rfl
+  | mulLit l p ws => simp only [opValue]; rw [valCompose_length, hrep]
+  | mulLoc dst src => simp only [opValue]; rw [valCompose_length, hrep]
+  | plusLit l p a => simp only [opValue]; rw [valPlus_length, hrep]
+  | assign dst src =>
+    simp only [Op.dst, resolvePath, Option.some.injEq, Prod.mk.injEq] at hr
+    simp only [opValue, Op.src, load_length]; exact hr.2.1
+  | castRt dst src =>
+    simp only [Op.dst, resolvePath, Option.some.injEq, Prod.mk.injEq] at hr
+    simp only [opValue, Op.src, List.length_map, load_length]; exact hr.2.1
+
+/-- **map_eq_value** without the side condition: for every op of the script language whose target
+    lies inside the buffer, `load ∘ op_view = op_value ∘ load`. -/
+theorem map_eq_value_total (conv : Word → Word) (d : GDesc) (op : Op) (b : Buf) (t : Target)
+    (ht : op.target d = some t) (hb : t.off + t.len ≤ b.size)
+    (hlit : ∀ l p ws, op = .setCoeffs l p ws → ws.length = t.len) :
+    load (step (α := α) conv d op b) t.off t.len
+      = opValue (α := α) conv (GDesc.model t.desc) op (load b t.off t.len)
+          (match op.src with | some s => load b s.off (repSize d) | none => []) :=
+  map_eq_value (α := α) conv d op b t ht hb (opValue_length (α := α) conv d op b t ht hlit)
+
 /-- **assign_verbatim**: construction / assignment between value, Map and const-Map storage copies
     the `RepSize` coefficients verbatim — whatever the overlap of the two regions (the model reads
     before it writes), and touches nothing else. -/
